@@ -68,7 +68,7 @@ def c10_div_forms():
                 for (key, rem, fe) in [("sdiv", False, "s / a"), ("sdivr", False, "s / &a"), ("srem", True, "s % a")]:
                     if T[0] == "u" and hi and T != "u8":
                         pass
-                    q = (T in ("i8", "i32") and key in ("sdiv", "srem") and hi) or (T == "i8" and not hi and key == "sdiv" and neg)
+                    q = (T in ("i8", "i64") and key in ("sdiv", "srem") and hi) or (T == "i8" and not hi and key == "sdiv" and neg)
                     L.append("scalar_by_big!(c10_%s_%s_%s_%s1_%s, %s, %s, %s, %s, |a, s| %s);" % (
                         tier(q), key, T, "m" if neg else "p", "hi" if hi else "lo", str(neg).lower(), T, str(rem).lower(), str(hi).lower(), fe))
     return L
